@@ -103,11 +103,16 @@ pub struct KnownEntry {
     pub text: String,
 }
 
+/// distinct non-trivial cases are counted exactly up to this many per worker (memory bound for the thorough tiers)
+const DISTINCT_CAP: usize = 3_000_000;
+
 #[derive(Default)]
 struct Stats {
     evaluations: u64,
     discards: u64,
     nontrivial: HashSet<u64>,
+    /// the per-worker set stopped growing at DISTINCT_CAP (the reported count is then a lower bound)
+    capped: bool,
     labels: BTreeMap<String, u64>,
     known_hits: BTreeMap<String, u64>,
     samples: Vec<Value>,
@@ -118,6 +123,7 @@ impl Stats {
         self.evaluations += o.evaluations;
         self.discards += o.discards;
         self.nontrivial.extend(o.nontrivial);
+        self.capped |= o.capped;
         for (k, v) in o.labels {
             *self.labels.entry(k).or_default() += v;
         }
@@ -527,7 +533,9 @@ impl Runner {
                                 if let Some(sig) = &known_hit {
                                     *st.known_hits.entry(sig.clone()).or_default() += 1;
                                 }
-                                if v.nontrivial && v.fail.is_none() {
+                                if v.nontrivial && v.fail.is_none() && st.nontrivial.len() >= DISTINCT_CAP {
+                                    st.capped = true;
+                                } else if v.nontrivial && v.fail.is_none() {
                                     let k = case_key(&case);
                                     if st.nontrivial.insert(k) && st.samples.len() < 3 {
                                         let n = st.nontrivial.len();
@@ -754,6 +762,7 @@ impl Runner {
                 "requested": p.requested,
                 "evaluations": p.stats.evaluations,
                 "distinct_nontrivial": p.stats.nontrivial.len(),
+                "distinct_nontrivial_is_lower_bound": p.stats.capped,
                 "discarded": p.stats.discards,
                 "exhaustive": p.exhaustive,
                 "known_finding_hits": p.stats.known_hits,
